@@ -500,7 +500,6 @@ pub fn sample_result_json<const D: usize>(
 
 fn op_sample(j: &Value) -> Value {
     let d = get_usize(j, "D");
-    let table = table_from_bits(&j["table"]);
     let sig = get_sig(j, "sig");
     let xs = get_fs(j, "x");
     let settings = settings_from(j);
@@ -513,7 +512,8 @@ fn op_sample(j: &Value) -> Value {
                 Err(msg) => return json!({"status": "builderr", "msg": msg}),
             }
         } else {
-            SampleGenerator::<D>::verif_from_parts(sig, table)
+            // (the table is only read on this path: with an api_graph a table layout the executor does not know is no obstacle)
+            SampleGenerator::<D>::verif_from_parts(sig, table_from_bits(&j["table"]))
         };
         let logger = CaptureLogger::new();
         let r = gen.generate_sample_from_x_space_point(&xs, edge_data_from::<D>(j), &settings, &logger);
